@@ -1,13 +1,17 @@
 /-
-  Helper definitions and lemmas for C06 (soundness of partial evaluation on its proved domain).
+  Helper definitions and lemmas for C06 (soundness of partial evaluation — since the repairs of partial.go for EVERY
+  expression; no domain hypothesis is left at expression level).
 
   Layout
     §1  `Completes`, `satisfied`, `erroring`
     §2  `R`: agreement of two evaluation results (equal values, or both errors)
     §3  operators as functions of their operands' results (`binSem`, `unSem`, …) with `eval_*` unfolding lemmas,
         strictness, and dependence on the environment through the store only
-    §4  substitution lemmas (`substAll` on marker-free values, attribute lookup commutes with substitution)
-    §5  the invariant `Sound` and the soundness of each `tryPartial` shape (`combine1`, `combine2`, `finishList`, …)
+    §4  substitution lemmas (`substAll` on values without unknowns, attribute lookup commutes with substitution)
+    §4b `Completion γ`: the three facts about "completing the unknowns inside a value" the proof uses; instances for
+        `Value.substAll σ` (C06) and — in Lemmas/C05Decision.lean — for the batch enumeration's successive substitutions
+    §5  the invariant `Sound γ` and the soundness of each `tryPartial` shape (`combine1`, `combine2`, `finishList`, …),
+        of `partialAnd/Or/IfThenElse/IsIn` (`andStep`, …) and the main theorem `partialE_sound`
 -/
 import CedarGo.Model.Partial
 set_option linter.unusedSimpArgs false
@@ -289,15 +293,16 @@ theorem isInSem_congr (env : Env) (ty : String) {a a' b b' : Res} (ha : R a a') 
 /-! ## §4 substitution -/
 
 mutual
-theorem substAll_clean (σ : String → Value) : ∀ v : Value, v.hasMarker = false → v.substAll σ = v
+/-- a value without unknowns is not touched by a completion -/
+theorem substAll_clean (σ : String → Value) : ∀ v : Value, v.hasUnknown = false → v.substAll σ = v
   | .entity ty id, h => by
-      simp only [Value.hasMarker, Bool.or_eq_false_iff] at h
-      simp [Value.substAll, h.1]
+      simp only [Value.hasUnknown] at h
+      simp [Value.substAll, h]
   | .record kvs, h => by
-      simp only [Value.hasMarker] at h
+      simp only [Value.hasUnknown] at h
       simp [Value.substAll, substAllKVs_clean σ kvs h]
   | .set xs, h => by
-      simp only [Value.hasMarker] at h
+      simp only [Value.hasUnknown] at h
       simp [Value.substAll, h]
   | .bool _, _ => rfl
   | .long _, _ => rfl
@@ -307,10 +312,10 @@ theorem substAll_clean (σ : String → Value) : ∀ v : Value, v.hasMarker = fa
   | .duration _, _ => rfl
   | .ip _, _ => rfl
 theorem substAllKVs_clean (σ : String → Value) :
-    ∀ kvs : List (String × Value), Value.hasMarkerKVs kvs = false → Value.substAllKVs σ kvs = kvs
+    ∀ kvs : List (String × Value), Value.hasUnknownKVs kvs = false → Value.substAllKVs σ kvs = kvs
   | [], _ => rfl
   | (k, x) :: rest, h => by
-      simp only [Value.hasMarkerKVs, Bool.or_eq_false_iff] at h
+      simp only [Value.hasUnknownKVs, Bool.or_eq_false_iff] at h
       simp [Value.substAllKVs, substAll_clean σ x h.1, substAllKVs_clean σ rest h.2]
 end
 
@@ -328,6 +333,54 @@ theorem substAll_entity_notVar (σ : String → Value) (ty id : String)
   simp only [Value.isVariable] at h
   simp [Value.substAll, h]
 
+/-! ## §4b completions, abstractly
+
+  The soundness proof only uses three facts about the map `γ` that turns a value of the partial environment into the
+  value it has in the completed environment.  `Value.substAll σ` (simultaneous completion, C06) and the successive
+  single-variable substitutions of the batch enumeration (`substMany`, C05) both have them. -/
+
+class Completion (γ : Value → Value) : Prop where
+  /-- a value without unknowns is left alone -/
+  clean : ∀ v : Value, v.hasUnknown = false → γ v = v
+  /-- a record stays a record; attribute lookup commutes with completion -/
+  record : ∀ kvs : List (String × Value), ∃ kvs', γ (.record kvs) = .record kvs' ∧ ∀ a, kvGet a kvs' = (kvGet a kvs).map γ
+  /-- a set stays a set -/
+  set : ∀ xs : List Value, ∃ ys, γ (.set xs) = .set ys
+
+theorem Completion.entity {γ : Value → Value} [Completion γ] (ty id : String)
+    (h : (Value.entity ty id).isVariable = false) : γ (.entity ty id) = .entity ty id :=
+  Completion.clean _ (by simpa [Value.hasUnknown, Value.isVariable] using h)
+
+theorem substAll_set_isSet (σ : String → Value) (xs : List Value) : ∃ ys, (Value.set xs).substAll σ = .set ys := by
+  simp only [Value.substAll]
+  split
+  · exact ⟨_, rfl⟩
+  · exact ⟨_, rfl⟩
+
+instance completion_substAll (σ : String → Value) : Completion (Value.substAll σ) where
+  clean := substAll_clean σ
+  record kvs := ⟨Value.substAllKVs σ kvs, by simp [Value.substAll], fun a => kvGet_substAllKVs σ a kvs⟩
+  set := substAll_set_isSet σ
+
+instance completion_id : Completion id where
+  clean _ _ := rfl
+  record kvs := ⟨kvs, rfl, fun a => by cases kvGet a kvs <;> rfl⟩
+  set xs := ⟨xs, rfl⟩
+
+/-- completions compose -/
+theorem Completion.comp {γ1 γ2 : Value → Value} (h1 : Completion γ1) (h2 : Completion γ2) :
+    Completion (fun v => γ2 (γ1 v)) where
+  clean v hv := by simp [h1.clean v hv, h2.clean v hv]
+  record kvs := by
+    obtain ⟨k1, e1, g1⟩ := h1.record kvs
+    obtain ⟨k2, e2, g2⟩ := h2.record k1
+    refine ⟨k2, by simp [e1, e2], fun a => ?_⟩
+    rw [g2, g1]; cases kvGet a kvs <;> rfl
+  set xs := by
+    obtain ⟨y1, e1⟩ := h1.set xs
+    obtain ⟨y2, e2⟩ := h2.set y1
+    exact ⟨y2, by simp [e1, e2]⟩
+
 /-! ## §5 the invariant -/
 
 /-- what a result of `partialE envHat e` promises about `e` under the completed environment `env`:
@@ -336,42 +389,65 @@ theorem substAll_entity_notVar (σ : String → Value) (ty id : String)
     * a residual expression: it agrees with `e`;
     * `errVariable`: nothing (every sound consumer keeps the original sub-expression);
     * an error: `e` fails under every completion. -/
-def Sound (σ : String → Value) (env : Env) (e : Expr) : PR → Prop
-  | .ok (.lit v) => v.isVariable = false ∧ (eval e env = .ok v ∨ eval e env = .ok (v.substAll σ))
+def Sound (γ : Value → Value) (env : Env) (e : Expr) : PR → Prop
+  | .ok (.lit v) => eval e env = .ok v ∨ (v.isVariable = false ∧ eval e env = .ok (γ v))
   | .ok e' => R (eval e' env) (eval e env)
   | .var _ => True
   | .ign => True
   | .err _ => ∃ k, eval e env = .error k
 
-theorem Sound.ok_nonlit {σ : String → Value} {env : Env} {e e' : Expr} (h : e'.isLit = false) :
-    Sound σ env e (.ok e') ↔ R (eval e' env) (eval e env) := by
+theorem Sound.ok_nonlit {γ : Value → Value} [Completion γ] {env : Env} {e e' : Expr} (h : e'.isLit = false) :
+    Sound γ env e (.ok e') ↔ R (eval e' env) (eval e env) := by
   cases e' <;> simp_all [Sound, Expr.isLit]
 
-theorem Sound.ok_lit {σ : String → Value} {env : Env} {e : Expr} {v : Value} :
-    Sound σ env e (.ok (.lit v)) ↔
-      (v.isVariable = false ∧ (eval e env = .ok v ∨ eval e env = .ok (v.substAll σ))) := by
+theorem Sound.ok_lit {γ : Value → Value} [Completion γ] {env : Env} {e : Expr} {v : Value} :
+    Sound γ env e (.ok (.lit v)) ↔
+      (eval e env = .ok v ∨ (v.isVariable = false ∧ eval e env = .ok (γ v))) := by
   simp [Sound]
 
+/-- a literal result consumed by an operator other than `.` / `has` has no unknown inside: `PR.whole` sees to that -/
+def PR.cleanLit : PR → Bool
+  | .ok (.lit v) => !v.hasUnknown
+  | _ => true
+
+theorem PR.whole_clean (p : PR) : p.whole.cleanLit = true := by
+  cases p with
+  | ok e =>
+    cases e <;> simp [PR.whole, PR.cleanLit]
+    rename_i v
+    cases h : v.hasUnknown <;> simp [PR.cleanLit, h]
+  | _ => rfl
+
+theorem Sound.whole {γ : Value → Value} [Completion γ] {env : Env} {e : Expr} {p : PR} (h : Sound γ env e p) :
+    Sound γ env e p.whole := by
+  cases p with
+  | ok e' =>
+    cases e' <;> simp only [PR.whole] <;> try exact h
+    split
+    · trivial
+    · exact h
+  | _ => exact h
+
 /-- a literal or residual that a non-access operator may consume agrees with the original -/
-theorem Sound.toR {σ : String → Value} {env : Env} {e e' : Expr}
-    (hs : Sound σ env e (.ok e')) (hc : (PR.ok e').cleanLit = true) : R (eval e' env) (eval e env) := by
+theorem Sound.toR {γ : Value → Value} [Completion γ] {env : Env} {e e' : Expr}
+    (hs : Sound γ env e (.ok e')) (hc : (PR.ok e').cleanLit = true) : R (eval e' env) (eval e env) := by
   cases he : e'.isLit
   · exact (Sound.ok_nonlit he).mp hs
   · cases e' <;> simp [Expr.isLit] at he
     rename_i v
     simp only [PR.cleanLit, Bool.not_eq_true'] at hc
-    obtain ⟨_, h | h⟩ := Sound.ok_lit.mp hs
+    rcases Sound.ok_lit.mp hs with h | ⟨_, h⟩
     · simp [eval, h, R]
-    · simp [eval, h, substAll_clean σ v hc, R]
+    · simp [eval, h, Completion.clean v hc, R]
 
 theorem isLit_iff {e : Expr} : e.isLit = true ↔ ∃ v, e = .lit v := by
   cases e <;> simp [Expr.isLit]
 
 /-- the tail of `tryPartial`: `node` (the operator over literal children) is evaluated against the partial
     environment; it reads the environment through the store only, and agrees with the original under `env` -/
-theorem finishVal_sound {σ : String → Value} {env envH : Env} {e node : Expr}
+theorem finishVal_sound {γ : Value → Value} [Completion γ] {env envH : Env} {e node : Expr}
     (hclosed : eval node envH = eval node env) (hrel : R (eval node env) (eval e env)) :
-    Sound σ env e (finishVal node (evalR node envH)) := by
+    Sound γ env e (finishVal node (evalR node envH)) := by
   unfold finishVal evalR
   rw [hclosed]
   cases h : eval node env with
@@ -386,8 +462,7 @@ theorem finishVal_sound {σ : String → Value} {env envH : Env} {e node : Expr}
     · simp [Sound]
     · split
       · simp [Sound]
-      · rename_i hv _
-        exact Sound.ok_lit.mpr ⟨by simpa using hv, Or.inl he⟩
+      · exact Sound.ok_lit.mpr (Or.inl he)
 
 /-- a unary operator shape: how `tryPartial` sees `like`, `is`, `!`, `-`, `isEmpty` -/
 structure Un (mk : Expr → Expr) (sem : Env → Res → Res) : Prop where
@@ -402,10 +477,10 @@ theorem Un.congr {mk : Expr → Expr} {sem : Env → Res → Res} (U : Un mk sem
   | error e => obtain ⟨k, rfl⟩ := R.err_left h; simp [U.err, R]
   | ok x => have := R.ok_left h; subst this; exact R.refl _
 
-theorem combine1_sound {σ : String → Value} {env envH : Env} {mk : Expr → Expr} {sem : Env → Res → Res}
+theorem combine1_sound {γ : Value → Value} [Completion γ] {env envH : Env} {mk : Expr → Expr} {sem : Env → Res → Res}
     (U : Un mk sem) (hent : envH.entities = env.entities) {e : Expr} {p : PR}
-    (hs : Sound σ env e p) (hc : p.cleanLit = true) :
-    Sound σ env (mk e) (combine1 e p mk (evalR · envH)) := by
+    (hs : Sound γ env e p) (hc : p.cleanLit = true) :
+    Sound γ env (mk e) (combine1 e p mk (evalR · envH)) := by
   cases p with
   | err k =>
     obtain ⟨k', hk⟩ := hs
@@ -448,22 +523,22 @@ theorem bin_isIn (ty : String) : Bin (.isIn · ty ·) (fun env a b => isInSem en
    fun env _ _ _ _ ha hb => isInSem_congr env ty ha hb, fun env env' h a b => isInSem_env env env' h ty a b, fun _ _ => rfl⟩
 
 /-- the evaluated branch of `combine2` (both children literals) -/
-theorem combine2_lits_sound {σ : String → Value} {env envH : Env} {mk : Expr → Expr → Expr}
+theorem combine2_lits_sound {γ : Value → Value} [Completion γ] {env envH : Env} {mk : Expr → Expr → Expr}
     {sem : Env → Res → Res → Res} (B : Bin mk sem) (hent : envH.entities = env.entities) {l r : Expr} {a b : Value}
     (hl : R (eval (.lit a) env) (eval l env)) (hr : R (eval (.lit b) env) (eval r env)) :
-    Sound σ env (mk l r) (finishVal (mk (.lit a) (.lit b)) (evalR (mk (.lit a) (.lit b)) envH)) := by
+    Sound γ env (mk l r) (finishVal (mk (.lit a) (.lit b)) (evalR (mk (.lit a) (.lit b)) envH)) := by
   apply finishVal_sound
   · rw [B.eval_mk, B.eval_mk, B.envInd envH env hent]; simp [eval]
   · rw [B.eval_mk, B.eval_mk]; exact B.congr env _ _ _ _ hl hr
 
 /-- `tryPartial` over two children.  `herr`: when the right child fails (and the left one did not fail first),
     the whole node fails — true for every strict operator, and for `is … in` under its guard. -/
-theorem combine2_sound {σ : String → Value} {env envH : Env} {mk : Expr → Expr → Expr}
+theorem combine2_sound {γ : Value → Value} [Completion γ] {env envH : Env} {mk : Expr → Expr → Expr}
     {sem : Env → Res → Res → Res} (B : Bin mk sem)
     (hent : envH.entities = env.entities) {l r : Expr} {p1 p2 : PR}
-    (hs1 : Sound σ env l p1) (hc1 : p1.cleanLit = true) (hs2 : Sound σ env r p2) (hc2 : p2.cleanLit = true)
+    (hs1 : Sound γ env l p1) (hc1 : p1.cleanLit = true) (hs2 : Sound γ env r p2) (hc2 : p2.cleanLit = true)
     (herr : ∀ k, p2 = .err k → (∀ k', p1 ≠ .err k') → p1 ≠ .ign → ∃ k, eval (mk l r) env = .error k) :
-    Sound σ env (mk l r) (combine2 l r p1 p2 mk (evalR · envH)) := by
+    Sound γ env (mk l r) (combine2 l r p1 p2 mk (evalR · envH)) := by
   cases p1 with
   | err k =>
     obtain ⟨k', hk⟩ := hs1
@@ -499,8 +574,65 @@ theorem combine2_sound {σ : String → Value} {env envH : Env} {mk : Expr → E
 
 theorem eval_extError (env : Env) : eval extError env = .error .partialErr := by rfl
 
-theorem notVar_of {p : PR} (h : p.notVar = true) : ∀ s, p ≠ .var s := by
-  intro s hp; subst hp; simp [PR.notVar] at h
+/-! ### literals that may contain unknowns: what a completion can and cannot change -/
+
+/-- what `e` evaluates to when `partial` returned the literal `v` for it -/
+theorem Sound.lit_eval {γ : Value → Value} [Completion γ] {env : Env} {e : Expr} {v : Value} (hs : Sound γ env e (.ok (.lit v))) :
+    ∃ v', eval e env = .ok v' ∧ (v' = v ∨ (v.isVariable = false ∧ v' = γ v)) := by
+  rcases Sound.ok_lit.mp hs with h | ⟨hv, h⟩
+  · exact ⟨v, h, Or.inl rfl⟩
+  · exact ⟨_, h, Or.inr ⟨hv, rfl⟩⟩
+
+/-- a value that is not itself an unknown and not a container is an atom: completions leave it alone -/
+theorem Completion.atom {γ : Value → Value} [Completion γ] (v : Value) (hv : v.isVariable = false)
+    (hr : ∀ kvs, v ≠ .record kvs) (hs : ∀ xs, v ≠ .set xs) : γ v = v := by
+  apply Completion.clean
+  cases v with
+  | entity ty id => simpa [Value.hasUnknown, Value.isVariable] using hv
+  | record kvs => exact absurd rfl (hr kvs)
+  | set xs => exact absurd rfl (hs xs)
+  | _ => rfl
+
+theorem lit_bool_eval {γ : Value → Value} [Completion γ] {env : Env} {e : Expr} {b : Bool}
+    (hs : Sound γ env e (.ok (.lit (.bool b)))) : eval e env = .ok (.bool b) := by
+  rcases Sound.ok_lit.mp hs with h | ⟨_, h⟩
+  · exact h
+  · rw [h, Completion.clean (γ := γ) (.bool b) rfl]
+
+theorem lit_nonbool_eval {γ : Value → Value} [Completion γ] {env : Env} {e : Expr} {v : Value}
+    (hs : Sound γ env e (.ok (.lit v))) (hv : ∀ b, v ≠ .bool b) : ∃ v', eval e env = .ok v' ∧ ∀ b, v' ≠ .bool b := by
+  obtain ⟨v', h, h' | ⟨hnv, h'⟩⟩ := Sound.lit_eval hs
+  · exact ⟨v', h, h' ▸ hv⟩
+  · refine ⟨v', h, ?_⟩
+    subst h'
+    cases v with
+    | bool b => exact absurd rfl (hv b)
+    | record kvs => obtain ⟨kvs', hk, _⟩ := Completion.record (γ := γ) kvs; rw [hk]; intro b hb; cases hb
+    | set xs => obtain ⟨ys, hys⟩ := Completion.set (γ := γ) xs; rw [hys]; intro b hb; cases hb
+    | _ =>
+      rw [Completion.atom (γ := γ) _ hnv (by intro kvs hb; cases hb) (by intro xs hb; cases hb)]
+      intro b hb; cases hb
+
+theorem lit_entity_eval {γ : Value → Value} [Completion γ] {env : Env} {e : Expr} {ty id : String}
+    (hs : Sound γ env e (.ok (.lit (.entity ty id)))) : eval e env = .ok (.entity ty id) := by
+  rcases Sound.ok_lit.mp hs with h | ⟨hv, h⟩
+  · exact h
+  · rw [h, Completion.entity (γ := γ) ty id hv]
+
+theorem lit_nonentity_eval {γ : Value → Value} [Completion γ] {env : Env} {e : Expr} {v : Value}
+    (hs : Sound γ env e (.ok (.lit v))) (hv : ∀ ty id, v ≠ .entity ty id) :
+    ∃ v', eval e env = .ok v' ∧ ∀ ty id, v' ≠ .entity ty id := by
+  obtain ⟨v', h, h' | ⟨hnv, h'⟩⟩ := Sound.lit_eval hs
+  · exact ⟨v', h, h' ▸ hv⟩
+  · refine ⟨v', h, ?_⟩
+    subst h'
+    cases v with
+    | entity ty id => exact absurd rfl (hv ty id)
+    | record kvs => obtain ⟨kvs', hk, _⟩ := Completion.record (γ := γ) kvs; rw [hk]; intro ty id hb; cases hb
+    | set xs => obtain ⟨ys, hys⟩ := Completion.set (γ := γ) xs; rw [hys]; intro ty id hb; cases hb
+    | _ =>
+      rw [Completion.atom (γ := γ) _ hnv (by intro kvs hb; cases hb) (by intro xs hb; cases hb)]
+      intro ty id hb; cases hb
 
 /-- `partialAnd` / `partialOr` share their shape: `op` with the value `stop` on which the left operand decides -/
 structure SC (op : BinOp) (stop : Bool) : Prop where
@@ -515,38 +647,36 @@ theorem sc_or : SC .or true :=
   ⟨fun _ _ => rfl, fun _ _ => rfl, fun _ v _ hv => by
     cases v <;> simp_all [binSem, toBool, bind, Except.bind]⟩
 
-/-- the common tail `andRest` / `orRest` -/
-def scRestPR (op : BinOp) (left : Expr) (pr : PR) : PR :=
-  match pr with
-  | .ign => .ign
-  | .err _ => .ok (.binop op left extError)
-  | .var stale => .ok (.binop op left stale)
-  | .ok r' => .ok (.binop op left r')
-
-theorem scRest_sound {σ : String → Value} {env : Env} (op : BinOp) {l r left : Expr} {pr : PR}
-    (hleft : R (eval left env) (eval l env)) (hs2 : Sound σ env r pr) (hnv : pr.notVar = true) (hc2 : pr.cleanLit = true) :
-    Sound σ env (.binop op l r) (scRestPR op left pr) := by
-  cases pr with
+/-- the common tail of `partialAnd` / `partialOr`: `left` stands for the left operand, the right operand is embedded
+    (its residual, an error node, or — when it reports `errVariable` or is a value containing an unknown — itself) -/
+theorem scRest_sound {γ : Value → Value} [Completion γ] {env : Env} (op : BinOp) {l r left : Expr} {pr : PR}
+    (hleft : R (eval left env) (eval l env)) (hs2 : Sound γ env r pr) :
+    Sound γ env (.binop op l r) (scRest op left r pr) := by
+  have hq := Sound.whole hs2
+  have hcq := PR.whole_clean pr
+  unfold scRest
+  generalize pr.whole = q at hq hcq
+  cases q with
   | ign => trivial
   | err k =>
-    obtain ⟨k', hk⟩ := hs2
+    obtain ⟨k', hk⟩ := hq
     refine (Sound.ok_nonlit rfl).mpr ?_
     rw [eval_binop, eval_binop, eval_extError, hk]
     exact binSem_congr op env hleft (R.err_err _ _)
-  | var s => simp [PR.notVar] at hnv
+  | var s =>
+    refine (Sound.ok_nonlit rfl).mpr ?_
+    rw [eval_binop, eval_binop]
+    exact binSem_congr op env hleft (R.refl _)
   | ok r' =>
     refine (Sound.ok_nonlit rfl).mpr ?_
     rw [eval_binop, eval_binop]
-    exact binSem_congr op env hleft (Sound.toR hs2 hc2)
-
-theorem andRest_eq (left : Expr) (pr : PR) : andRest left pr = scRestPR .and left pr := by cases pr <;> rfl
-theorem orRest_eq (left : Expr) (pr : PR) : orRest left pr = scRestPR .or left pr := by cases pr <;> rfl
+    exact binSem_congr op env hleft (Sound.toR hq hcq)
 
 /-- left operand is the literal that lets the right operand decide: `tryPartialBinary(True, v.Right, newAndEval)` -/
-theorem scGo_sound {σ : String → Value} {env envH : Env} (op : BinOp) (stop : Bool) (S : SC op stop)
+theorem scGo_sound {γ : Value → Value} [Completion γ] {env envH : Env} (op : BinOp) (stop : Bool) (S : SC op stop)
     (hent : envH.entities = env.entities) {l r : Expr} {pr : PR}
-    (hl : eval l env = .ok (.bool (!stop))) (hs2 : Sound σ env r pr) (hc2 : pr.cleanLit = true) :
-    Sound σ env (.binop op l r)
+    (hl : eval l env = .ok (.bool (!stop))) (hs2 : Sound γ env r pr) (hc2 : pr.cleanLit = true) :
+    Sound γ env (.binop op l r)
       (combine2 (.lit (.bool (!stop))) r (.ok (.lit (.bool (!stop)))) pr (.binop op) (evalR · envH)) := by
   have hlit : R (eval (.lit (.bool (!stop))) env) (eval l env) := by simp [eval, hl, R]
   cases pr with
@@ -568,85 +698,77 @@ theorem scGo_sound {σ : String → Value} {env envH : Env} (op : BinOp) (stop :
     · refine (Sound.ok_nonlit rfl).mpr ?_
       rw [eval_binop, eval_binop]; exact binSem_congr op env hlit hr
 
-theorem lit_clean_eval {σ : String → Value} {env : Env} {e : Expr} {v : Value}
-    (hs : Sound σ env e (.ok (.lit v))) (hc : (PR.ok (.lit v)).cleanLit = true) : eval e env = .ok v := by
+theorem lit_clean_eval {γ : Value → Value} [Completion γ] {env : Env} {e : Expr} {v : Value}
+    (hs : Sound γ env e (.ok (.lit v))) (hc : (PR.ok (.lit v)).cleanLit = true) : eval e env = .ok v := by
   have := Sound.toR hs hc
   simp only [eval] at this
   exact R.ok_left this
 
-theorem andStep_sound {σ : String → Value} {env envH : Env} (hent : envH.entities = env.entities) {l r : Expr} {pl pr : PR}
-    (hs1 : Sound σ env l pl) (hs2 : Sound σ env r pr) (hd : scDom pl pr = true) :
-    Sound σ env (.binop .and l r) (andStep envH r pl pr) := by
-  simp only [scDom, Bool.and_eq_true] at hd
-  obtain ⟨⟨hnv1, hc1⟩, hd2⟩ := hd
+theorem andStep_sound {γ : Value → Value} [Completion γ] {env envH : Env} (hent : envH.entities = env.entities) {l r : Expr} {pl pr : PR}
+    (hs1 : Sound γ env l pl) (hs2 : Sound γ env r pr) :
+    Sound γ env (.binop .and l r) (andStep envH l r pl pr) := by
   cases pl with
   | err k =>
     obtain ⟨k', hk⟩ := hs1
     exact ⟨k', by rw [eval_binop, hk, binSem_err_left]⟩
   | ign => trivial
-  | var s => simp [PR.notVar] at hnv1
+  | var s => exact scRest_sound .and (R.refl _) hs2
   | ok l' =>
     cases hl : l'.isLit
     · -- residual left operand
-      have hd2' : pr.notVar = true ∧ pr.cleanLit = true := by
-        cases l' <;> simp_all [PR.isLitR, Expr.isLit]
-      have : andStep envH r (.ok l') pr = andRest l' pr := by
+      have : andStep envH l r (.ok l') pr = scRest .and l' r pr := by
         cases l' <;> simp_all [andStep, Expr.isLit]
-      rw [this, andRest_eq]
-      exact scRest_sound .and ((Sound.ok_nonlit hl).mp hs1) hs2 hd2'.1 hd2'.2
+      rw [this]
+      exact scRest_sound .and ((Sound.ok_nonlit hl).mp hs1) hs2
     · obtain ⟨v, rfl⟩ := isLit_iff.mp hl
-      have hev := lit_clean_eval hs1 hc1
-      have hc2 : pr.cleanLit = true := by simpa [PR.isLitR] using hd2
       cases v with
       | bool b =>
+        have hev := lit_bool_eval hs1
         cases b
         · -- false: the conjunction is false
           simp only [andStep]
-          exact Sound.ok_lit.mpr ⟨rfl, Or.inl (by rw [eval_binop, hev]; exact sc_and.left_stop env _)⟩
+          exact Sound.ok_lit.mpr (Or.inl (by rw [eval_binop, hev]; exact sc_and.left_stop env _))
         · simp only [andStep]
-          exact scGo_sound .and false sc_and hent (by simpa using hev) hs2 hc2
+          exact scGo_sound .and false sc_and hent (by simpa using hev) (Sound.whole hs2) (PR.whole_clean pr)
       | _ =>
+        obtain ⟨v', hev, hnb⟩ := lit_nonbool_eval hs1 (by intro b hb; cases hb)
         simp only [andStep, Sound]
-        rw [eval_binop, hev]; exact sc_and.left_nonbool env _ _ (by intro b hb; cases hb)
+        rw [eval_binop, hev]; exact sc_and.left_nonbool env _ _ hnb
 
-theorem orStep_sound {σ : String → Value} {env envH : Env} (hent : envH.entities = env.entities) {l r : Expr} {pl pr : PR}
-    (hs1 : Sound σ env l pl) (hs2 : Sound σ env r pr) (hd : scDom pl pr = true) :
-    Sound σ env (.binop .or l r) (orStep envH r pl pr) := by
-  simp only [scDom, Bool.and_eq_true] at hd
-  obtain ⟨⟨hnv1, hc1⟩, hd2⟩ := hd
+theorem orStep_sound {γ : Value → Value} [Completion γ] {env envH : Env} (hent : envH.entities = env.entities) {l r : Expr} {pl pr : PR}
+    (hs1 : Sound γ env l pl) (hs2 : Sound γ env r pr) :
+    Sound γ env (.binop .or l r) (orStep envH l r pl pr) := by
   cases pl with
   | err k =>
     obtain ⟨k', hk⟩ := hs1
     exact ⟨k', by rw [eval_binop, hk, binSem_err_left]⟩
   | ign => trivial
-  | var s => simp [PR.notVar] at hnv1
+  | var s => exact scRest_sound .or (R.refl _) hs2
   | ok l' =>
     cases hl : l'.isLit
-    · have hd2' : pr.notVar = true ∧ pr.cleanLit = true := by
-        cases l' <;> simp_all [PR.isLitR, Expr.isLit]
-      have : orStep envH r (.ok l') pr = orRest l' pr := by
+    · have : orStep envH l r (.ok l') pr = scRest .or l' r pr := by
         cases l' <;> simp_all [orStep, Expr.isLit]
-      rw [this, orRest_eq]
-      exact scRest_sound .or ((Sound.ok_nonlit hl).mp hs1) hs2 hd2'.1 hd2'.2
+      rw [this]
+      exact scRest_sound .or ((Sound.ok_nonlit hl).mp hs1) hs2
     · obtain ⟨v, rfl⟩ := isLit_iff.mp hl
-      have hev := lit_clean_eval hs1 hc1
-      have hc2 : pr.cleanLit = true := by simpa [PR.isLitR] using hd2
       cases v with
       | bool b =>
+        have hev := lit_bool_eval hs1
         cases b
         · simp only [orStep]
-          exact scGo_sound .or true sc_or hent (by simpa using hev) hs2 hc2
+          exact scGo_sound .or true sc_or hent (by simpa using hev) (Sound.whole hs2) (PR.whole_clean pr)
         · simp only [orStep]
-          exact Sound.ok_lit.mpr ⟨rfl, Or.inl (by rw [eval_binop, hev]; exact sc_or.left_stop env _)⟩
+          exact Sound.ok_lit.mpr (Or.inl (by rw [eval_binop, hev]; exact sc_or.left_stop env _))
       | _ =>
+        obtain ⟨v', hev, hnb⟩ := lit_nonbool_eval hs1 (by intro b hb; cases hb)
         simp only [orStep, Sound]
-        rw [eval_binop, hev]; exact sc_or.left_nonbool env _ _ (by intro b hb; cases hb)
+        rw [eval_binop, hev]; exact sc_or.left_nonbool env _ _ hnb
 
 /-- `combine2` for the operators that fail whenever their right operand fails (everything but `&&`, `||`, `is…in`) -/
-theorem combine2_strict_sound {σ : String → Value} {env envH : Env} (op : BinOp) (h1 : op ≠ .and) (h2 : op ≠ .or)
+theorem combine2_strict_sound {γ : Value → Value} [Completion γ] {env envH : Env} (op : BinOp) (h1 : op ≠ .and) (h2 : op ≠ .or)
     (hent : envH.entities = env.entities) {l r : Expr} {p1 p2 : PR}
-    (hs1 : Sound σ env l p1) (hc1 : p1.cleanLit = true) (hs2 : Sound σ env r p2) (hc2 : p2.cleanLit = true) :
-    Sound σ env (.binop op l r) (combine2 l r p1 p2 (.binop op) (evalR · envH)) := by
+    (hs1 : Sound γ env l p1) (hc1 : p1.cleanLit = true) (hs2 : Sound γ env r p2) (hc2 : p2.cleanLit = true) :
+    Sound γ env (.binop op l r) (combine2 l r p1 p2 (.binop op) (evalR · envH)) := by
   apply combine2_sound (bin_binop op) hent hs1 hc1 hs2 hc2
   intro k hk _ _
   subst hk
@@ -654,135 +776,187 @@ theorem combine2_strict_sound {σ : String → Value} {env envH : Env} (op : Bin
   rw [eval_binop, hk']
   exact binSem_strict_right op env _ _ h1 h2
 
-theorem isIn_sound {σ : String → Value} {env envH : Env} (ty : String)
-    (hent : envH.entities = env.entities) {l r : Expr} {p1 p2 : PR}
-    (hs1 : Sound σ env l p1) (hc1 : p1.cleanLit = true) (hs2 : Sound σ env r p2) (hc2 : p2.cleanLit = true)
-    (hg : isInGuard ty p1 p2 = true) :
-    Sound σ env (.isIn l ty r) (combine2 l r p1 p2 (.isIn · ty ·) (evalR · envH)) := by
-  apply combine2_sound (bin_isIn ty) hent hs1 hc1 hs2 hc2
-  intro k hk hne1 hne2
-  subst hk
-  obtain ⟨k', hk'⟩ := hs2
-  -- the guard leaves only: the left operand is a literal entity of type `ty`
-  cases p1 with
-  | err k1 => exact absurd rfl (hne1 k1)
-  | ign => exact absurd rfl hne2
-  | var s => simp [isInGuard] at hg
-  | ok l' =>
-    cases l' <;> simp [isInGuard] at hg
-    rename_i v
-    cases v <;> simp at hg
-    rename_i ty' id
-    have hev := lit_clean_eval hs1 hc1
-    refine ⟨k', ?_⟩
-    rw [eval_isIn, hev, hk']
-    simp [isInSem, toEntity, bind, Except.bind, hg]
-
-theorem Sound.transfer {σ : String → Value} {env : Env} {e1 e2 : Expr} {p : PR}
-    (h : eval e1 env = eval e2 env) (hs : Sound σ env e2 p) : Sound σ env e1 p := by
+theorem Sound.transfer {γ : Value → Value} [Completion γ] {env : Env} {e1 e2 : Expr} {p : PR}
+    (h : eval e1 env = eval e2 env) (hs : Sound γ env e2 p) : Sound γ env e1 p := by
   cases p with
   | ok e' => cases e' <;> simp_all [Sound]
   | _ => simp_all [Sound]
 
-/-- a branch of `partialIfThenElse` under a residual condition -/
-theorem branch_sound {σ : String → Value} {env : Env} {t : Expr} {pt : PR}
-    (hs : Sound σ env t pt) (hnv : pt.notVar = true) (hc : pt.cleanLit = true) :
-    ∀ t', branchNode pt = some t' → R (eval t' env) (eval t env) := by
-  intro t' ht
-  cases pt with
-  | ign => simp [branchNode] at ht
-  | err k =>
-    simp only [branchNode, Option.some.injEq] at ht; subst ht
-    obtain ⟨k', hk⟩ := hs
-    rw [eval_extError, hk]; exact R.err_err _ _
-  | var s => simp [PR.notVar] at hnv
-  | ok x =>
-    simp only [branchNode, Option.some.injEq] at ht; subst ht
-    exact Sound.toR hs hc
+/-! ### `is … in` -/
 
-theorem iteRest_sound {σ : String → Value} {env : Env} {c t e c' : Expr} {pt pe : PR}
+/-- while the type test is undecided the right-hand side is embedded (residual, error node, or itself) -/
+theorem isInRest_sound {γ : Value → Value} [Completion γ] {env : Env} (ty : String) {l r left : Expr} {pr : PR}
+    (hleft : R (eval left env) (eval l env)) (hs2 : Sound γ env r pr) :
+    Sound γ env (.isIn l ty r) (isInRest left ty r pr) := by
+  have hq := Sound.whole hs2
+  have hcq := PR.whole_clean pr
+  unfold isInRest
+  generalize pr.whole = q at hq hcq
+  cases q with
+  | ign => trivial
+  | err k =>
+    obtain ⟨k', hk⟩ := hq
+    refine (Sound.ok_nonlit rfl).mpr ?_
+    rw [eval_isIn, eval_isIn, eval_extError, hk]
+    exact isInSem_congr env ty hleft (R.err_err _ _)
+  | var s =>
+    refine (Sound.ok_nonlit rfl).mpr ?_
+    rw [eval_isIn, eval_isIn]
+    exact isInSem_congr env ty hleft (R.refl _)
+  | ok r' =>
+    refine (Sound.ok_nonlit rfl).mpr ?_
+    rw [eval_isIn, eval_isIn]
+    exact isInSem_congr env ty hleft (Sound.toR hq hcq)
+
+theorem lit_self_sound (γ : Value → Value) [Completion γ] (env : Env) (v : Value) : Sound γ env (.lit v) (.ok (.lit v)) :=
+  Sound.ok_lit.mpr (Or.inl rfl)
+
+theorem isInStep_sound {γ : Value → Value} [Completion γ] {env envH : Env} (ty : String)
+    (hent : envH.entities = env.entities) {l r : Expr} {pl pr : PR}
+    (hs1 : Sound γ env l pl) (hs2 : Sound γ env r pr) :
+    Sound γ env (.isIn l ty r) (isInStep envH ty l r pl pr) := by
+  cases pl with
+  | err k =>
+    obtain ⟨k', hk⟩ := hs1
+    exact ⟨k', by rw [eval_isIn, hk, isInSem_err_left]⟩
+  | ign => trivial
+  | var s => exact isInRest_sound ty (R.refl _) hs2
+  | ok l' =>
+    cases hl : l'.isLit
+    · have : isInStep envH ty l r (.ok l') pr = isInRest l' ty r pr := by
+        cases l' <;> simp_all [isInStep, Expr.isLit]
+      rw [this]
+      exact isInRest_sound ty ((Sound.ok_nonlit hl).mp hs1) hs2
+    · obtain ⟨v, rfl⟩ := isLit_iff.mp hl
+      cases v with
+      | entity ty' id =>
+        have hev := lit_entity_eval hs1
+        simp only [isInStep]
+        split
+        · -- the type test fails: false, whatever the right-hand side does
+          rename_i hne
+          refine Sound.ok_lit.mpr (Or.inl ?_)
+          rw [eval_isIn, hev]
+          simp [isInSem, toEntity, bind, Except.bind, hne]
+        · -- the type test passes: strict in the right-hand side
+          rename_i hne
+          have hty : ty' = ty := by simpa using hne
+          have htr : eval (.isIn l ty r) env = eval (.isIn (.lit (.entity ty' id)) ty r) env := by
+            rw [eval_isIn, eval_isIn, hev]; simp [eval]
+          refine Sound.transfer htr ?_
+          apply combine2_sound (bin_isIn ty) hent (Sound.whole (lit_self_sound γ env _)) (PR.whole_clean _)
+            (Sound.whole hs2) (PR.whole_clean pr)
+          intro k hk _ _
+          have hq := Sound.whole hs2
+          rw [hk] at hq
+          obtain ⟨k', hk'⟩ := hq
+          refine ⟨k', ?_⟩
+          rw [eval_isIn, hk']
+          simp [eval, isInSem, toEntity, bind, Except.bind, hty]
+      | _ =>
+        obtain ⟨v', hev, hne⟩ := lit_nonentity_eval hs1 (by intro ty id hb; cases hb)
+        simp only [isInStep, Sound]
+        rw [eval_isIn, hev]
+        cases v' <;> first | exact absurd rfl (hne _ _) | exact ⟨.type, rfl⟩
+
+/-! ### if-then-else -/
+
+/-- a branch of `partialIfThenElse` under a residual condition -/
+theorem branch_sound {γ : Value → Value} [Completion γ] {env : Env} {t : Expr} {pt : PR}
+    (hs : Sound γ env t pt) :
+    ∀ t', branchNode t pt = some t' → R (eval t' env) (eval t env) := by
+  intro t' ht
+  have hq := Sound.whole hs
+  have hcq := PR.whole_clean pt
+  unfold branchNode at ht
+  generalize pt.whole = q at hq hcq ht
+  cases q with
+  | ign => simp at ht
+  | err k =>
+    simp only [Option.some.injEq] at ht; subst ht
+    obtain ⟨k', hk⟩ := hq
+    rw [eval_extError, hk]; exact R.err_err _ _
+  | var s =>
+    simp only [Option.some.injEq] at ht; subst ht
+    exact R.refl _
+  | ok x =>
+    simp only [Option.some.injEq] at ht; subst ht
+    exact Sound.toR hq hcq
+
+theorem iteRest_sound {γ : Value → Value} [Completion γ] {env : Env} {c t e c' : Expr} {pt pe : PR}
     (hc : R (eval c' env) (eval c env))
-    (hst : Sound σ env t pt) (hse : Sound σ env e pe)
-    (h1 : pt.notVar = true) (h2 : pt.cleanLit = true) (h3 : pe.notVar = true) (h4 : pe.cleanLit = true) :
-    Sound σ env (.ite c t e) (iteRest c' pt pe) := by
+    (hst : Sound γ env t pt) (hse : Sound γ env e pe) :
+    Sound γ env (.ite c t e) (iteRest c' t e pt pe) := by
   unfold iteRest
-  cases hbt : branchNode pt with
+  cases hbt : branchNode t pt with
   | none => trivial
   | some t' =>
-    cases hbe : branchNode pe with
+    cases hbe : branchNode e pe with
     | none => trivial
     | some e' =>
       refine (Sound.ok_nonlit rfl).mpr ?_
       rw [eval_ite, eval_ite]
-      exact iteSem_congr hc (branch_sound hst h1 h2 t' hbt) (branch_sound hse h3 h4 e' hbe)
+      exact iteSem_congr hc (branch_sound hst t' hbt) (branch_sound hse e' hbe)
 
-theorem iteStep_sound {σ : String → Value} {env : Env} {c t e : Expr} {pc pt pe : PR}
-    (hsc : Sound σ env c pc) (hst : Sound σ env t pt) (hse : Sound σ env e pe) (hd : iteDom pc pt pe = true) :
-    Sound σ env (.ite c t e) (iteStep pc pt pe) := by
-  simp only [iteDom, Bool.and_eq_true] at hd
-  obtain ⟨⟨hnv, hcl⟩, hd2⟩ := hd
+theorem iteStep_sound {γ : Value → Value} [Completion γ] {env : Env} {c t e : Expr} {pc pt pe : PR}
+    (hsc : Sound γ env c pc) (hst : Sound γ env t pt) (hse : Sound γ env e pe) :
+    Sound γ env (.ite c t e) (iteStep c t e pc pt pe) := by
   cases pc with
   | err k =>
     obtain ⟨k', hk⟩ := hsc
     exact ⟨k', by rw [eval_ite, hk, iteSem_err]⟩
   | ign => trivial
-  | var s => simp [PR.notVar] at hnv
+  | var s => exact iteRest_sound (R.refl _) hst hse
   | ok c' =>
     cases hl : c'.isLit
-    · have hd2' : (pt.notVar = true ∧ pt.cleanLit = true) ∧ pe.notVar = true ∧ pe.cleanLit = true := by
-        cases c' <;> simp_all [PR.isLitR, Expr.isLit, and_assoc]
-      have : iteStep (.ok c') pt pe = iteRest c' pt pe := by
+    · have : iteStep c t e (.ok c') pt pe = iteRest c' t e pt pe := by
         cases c' <;> simp_all [iteStep, Expr.isLit]
       rw [this]
-      exact iteRest_sound ((Sound.ok_nonlit hl).mp hsc) hst hse hd2'.1.1 hd2'.1.2 hd2'.2.1 hd2'.2.2
+      exact iteRest_sound ((Sound.ok_nonlit hl).mp hsc) hst hse
     · obtain ⟨v, rfl⟩ := isLit_iff.mp hl
-      have hev := lit_clean_eval hsc hcl
       cases v with
       | bool b =>
+        have hev := lit_bool_eval hsc
         cases b
         · simp only [iteStep]
           exact Sound.transfer (by rw [eval_ite, hev]; rfl) hse
         · simp only [iteStep]
           exact Sound.transfer (by rw [eval_ite, hev]; rfl) hst
       | _ =>
+        obtain ⟨v', hev, hnb⟩ := lit_nonbool_eval hsc (by intro b hb; cases hb)
         simp only [iteStep, Sound]
         rw [eval_ite, hev]
-        exact ⟨.type, rfl⟩
+        cases v' <;> first | exact absurd rfl (hnb _) | exact ⟨.type, rfl⟩
 
 /-! ### attribute access and `has`: the only consumers of values that merely contain unknowns -/
 
-theorem substAll_set_isSet (σ : String → Value) (xs : List Value) : ∃ ys, (Value.set xs).substAll σ = .set ys := by
-  simp only [Value.substAll]
-  split
-  · exact ⟨_, rfl⟩
-  · exact ⟨_, rfl⟩
-
-theorem access_lit_sound {σ : String → Value} {env envH : Env} (hent : envH.entities = env.entities)
-    {e : Expr} {v : Value} (a : String) (hv : v.isVariable = false)
-    (h : eval e env = .ok v ∨ eval e env = .ok (v.substAll σ)) :
-    Sound σ env (.access e a) (finishVal (.access (.lit v) a) (evalR (.access (.lit v) a) envH)) := by
+theorem access_lit_sound {γ : Value → Value} [Completion γ] {env envH : Env} (hent : envH.entities = env.entities)
+    {e : Expr} {v : Value} (a : String)
+    (h : eval e env = .ok v ∨ (v.isVariable = false ∧ eval e env = .ok (γ v))) :
+    Sound γ env (.access e a) (finishVal (.access (.lit v) a) (evalR (.access (.lit v) a) envH)) := by
   have left : eval e env = .ok v →
-      Sound σ env (.access e a) (finishVal (.access (.lit v) a) (evalR (.access (.lit v) a) envH)) := by
+      Sound γ env (.access e a) (finishVal (.access (.lit v) a) (evalR (.access (.lit v) a) envH)) := by
     intro h
     apply finishVal_sound
     · rw [eval_access, eval_access, accessSem_env envH env hent]; simp only [eval]
     · rw [eval_access, eval_access, h]; exact R.refl _
-  rcases h with h | h
+  rcases h with h | ⟨hv, h⟩
   · exact left h
   · cases v with
     | record kvs =>
+      obtain ⟨kvs', hk, hget⟩ := Completion.record (γ := γ) kvs
       unfold finishVal evalR
       have hE : eval (.access e a) env =
-          (match kvGet a kvs with | some x => .ok (x.substAll σ) | none => .error .attr) := by
-        rw [eval_access, h]
-        simp only [Value.substAll, accessSem, bind, Except.bind, kvGet_substAllKVs]
+          (match kvGet a kvs with | some x => .ok (γ x) | none => .error .attr) := by
+        rw [eval_access, h, hk]
+        simp only [accessSem, bind, Except.bind, hget]
         cases kvGet a kvs <;> rfl
       have hH : eval (.access (.lit (.record kvs)) a) envH =
           (match kvGet a kvs with | some x => .ok x | none => .error .attr) := by
         rw [eval_access]; simp only [eval, accessSem, bind, Except.bind]
       rw [hH]
-      cases hk : kvGet a kvs with
-      | none => simp only [Sound]; rw [hE, hk]; exact ⟨_, rfl⟩
+      cases hk2 : kvGet a kvs with
+      | none => simp only [Sound]; rw [hE, hk2]; exact ⟨_, rfl⟩
       | some x =>
         simp only
         split
@@ -790,26 +964,20 @@ theorem access_lit_sound {σ : String → Value} {env envH : Env} (hent : envH.e
         · split
           · trivial
           · rename_i hxv _
-            exact Sound.ok_lit.mpr ⟨by simpa using hxv, Or.inr (by rw [hE, hk])⟩
+            exact Sound.ok_lit.mpr (Or.inr ⟨by simpa using hxv, by rw [hE, hk2]⟩)
     | set xs =>
-      obtain ⟨ys, hys⟩ := substAll_set_isSet σ xs
+      obtain ⟨ys, hys⟩ := Completion.set (γ := γ) xs
       unfold finishVal evalR
       have hH : eval (.access (.lit (.set xs)) a) envH = .error .type := by rfl
       rw [hH]
       simp only [Sound]
       exact ⟨.type, by rw [eval_access, h, hys]; rfl⟩
-    | entity ty id => exact left (by rw [h, substAll_entity_notVar σ ty id hv])
-    | bool b => exact left h
-    | long n => exact left h
-    | str s => exact left h
-    | decimal n => exact left h
-    | datetime n => exact left h
-    | duration n => exact left h
-    | ip x => exact left h
+    | _ =>
+      exact left (by rw [h, Completion.atom (γ := γ) _ hv (by intro kvs hb; cases hb) (by intro xs hb; cases hb)])
 
-theorem access_sound {σ : String → Value} {env envH : Env} (hent : envH.entities = env.entities)
-    {e : Expr} {p : PR} (a : String) (hs : Sound σ env e p) :
-    Sound σ env (.access e a) (combine1 e p (.access · a) (evalR · envH)) := by
+theorem access_sound {γ : Value → Value} [Completion γ] {env envH : Env} (hent : envH.entities = env.entities)
+    {e : Expr} {p : PR} (a : String) (hs : Sound γ env e p) :
+    Sound γ env (.access e a) (combine1 e p (.access · a) (evalR · envH)) := by
   cases p with
   | err k =>
     obtain ⟨k', hk⟩ := hs
@@ -821,8 +989,7 @@ theorem access_sound {σ : String → Value} {env envH : Env} (hent : envH.entit
     split
     · rename_i hl
       obtain ⟨v, rfl⟩ := isLit_iff.mp hl
-      obtain ⟨hv, h⟩ := Sound.ok_lit.mp hs
-      exact access_lit_sound hent a hv h
+      exact access_lit_sound hent a (Sound.ok_lit.mp hs)
     · rename_i hl
       have hl' : e'.isLit = false := by simpa using hl
       refine (Sound.ok_nonlit rfl).mpr ?_
@@ -853,45 +1020,40 @@ theorem hasStep_spec (env : Env) (v : Value) (a : String) :
     | some x => simp only; split <;> simp
   | _ => right; rfl
 
-theorem has_lit_sound {σ : String → Value} {env envH : Env} (hent : envH.entities = env.entities)
-    {e : Expr} {v : Value} (a : String) (hv : v.isVariable = false)
-    (h : eval e env = .ok v ∨ eval e env = .ok (v.substAll σ)) :
-    Sound σ env (.has e a) (finishVal (.has (.lit v) a) (hasStep envH v a)) := by
+theorem has_lit_sound {γ : Value → Value} [Completion γ] {env envH : Env} (hent : envH.entities = env.entities)
+    {e : Expr} {v : Value} (a : String)
+    (h : eval e env = .ok v ∨ (v.isVariable = false ∧ eval e env = .ok (γ v))) :
+    Sound γ env (.has e a) (finishVal (.has (.lit v) a) (hasStep envH v a)) := by
   rcases hasStep_spec envH v a with hi | hi
   · rw [hi]; trivial
   · rw [hi]
     have left : eval e env = .ok v →
-        Sound σ env (.has e a) (finishVal (.has (.lit v) a) (evalR (.has (.lit v) a) envH)) := by
+        Sound γ env (.has e a) (finishVal (.has (.lit v) a) (evalR (.has (.lit v) a) envH)) := by
       intro h
       apply finishVal_sound
       · rw [eval_has, eval_has, hasSem_env envH env hent]; simp only [eval]
       · rw [eval_has, eval_has, h]; exact R.refl _
-    rcases h with h | h
+    rcases h with h | ⟨hv, h⟩
     · exact left h
     · cases v with
       | record kvs =>
+        obtain ⟨kvs', hk, hget⟩ := Completion.record (γ := γ) kvs
         apply finishVal_sound
         · rw [eval_has, eval_has, hasSem_env envH env hent]; simp only [eval]
-        · rw [eval_has, eval_has, h]
-          simp only [eval, Value.substAll, hasSem, bind, Except.bind, kvGet_substAllKVs]
+        · rw [eval_has, eval_has, h, hk]
+          simp only [eval, hasSem, bind, Except.bind, hget]
           cases kvGet a kvs <;> exact R.refl _
       | set xs =>
-        obtain ⟨ys, hys⟩ := substAll_set_isSet σ xs
+        obtain ⟨ys, hys⟩ := Completion.set (γ := γ) xs
         apply finishVal_sound
         · rw [eval_has, eval_has, hasSem_env envH env hent]; simp only [eval]
         · rw [eval_has, eval_has, h, hys]; exact R.refl _
-      | entity ty id => exact left (by rw [h, substAll_entity_notVar σ ty id hv])
-      | bool b => exact left h
-      | long n => exact left h
-      | str s => exact left h
-      | decimal n => exact left h
-      | datetime n => exact left h
-      | duration n => exact left h
-      | ip x => exact left h
+      | _ =>
+        exact left (by rw [h, Completion.atom (γ := γ) _ hv (by intro kvs hb; cases hb) (by intro xs hb; cases hb)])
 
-theorem has_sound {σ : String → Value} {env envH : Env} (hent : envH.entities = env.entities)
-    {e : Expr} {p : PR} (a : String) (hs : Sound σ env e p) :
-    Sound σ env (.has e a)
+theorem has_sound {γ : Value → Value} [Completion γ] {env envH : Env} (hent : envH.entities = env.entities)
+    {e : Expr} {p : PR} (a : String) (hs : Sound γ env e p) :
+    Sound γ env (.has e a)
       (combine1 e p (.has · a) (fun n => match n with | .has (.lit v) _ => hasStep envH v a | _ => .err .panic)) := by
   cases p with
   | err k =>
@@ -904,8 +1066,7 @@ theorem has_sound {σ : String → Value} {env envH : Env} (hent : envH.entities
     split
     · rename_i hl
       obtain ⟨v, rfl⟩ := isLit_iff.mp hl
-      obtain ⟨hv, h⟩ := Sound.ok_lit.mp hs
-      exact has_lit_sound hent a hv h
+      exact has_lit_sound hent a (Sound.ok_lit.mp hs)
     · rename_i hl
       have hl' : e'.isLit = false := by simpa using hl
       refine (Sound.ok_nonlit rfl).mpr ?_
@@ -918,17 +1079,13 @@ theorem has_sound {σ : String → Value} {env envH : Env} (hent : envH.entities
 /-! ### request variables and literals -/
 
 theorem var_sound (σ : String → Value) (envH : Env) (x : Var) :
-    Sound σ (completeEnv σ envH) (.var x) (finishVal (.var x) (evalR (.var x) envH)) := by
+    Sound (Value.substAll σ) (completeEnv σ envH) (.var x) (finishVal (.var x) (evalR (.var x) envH)) := by
   unfold finishVal evalR
   cases x <;> simp only [eval] <;> (split; · trivial) <;> (split; · trivial) <;>
-    (rename_i hv _; exact Sound.ok_lit.mpr ⟨by simpa using hv, Or.inr rfl⟩)
+    (rename_i hv _; exact Sound.ok_lit.mpr (Or.inr ⟨by simpa using hv, rfl⟩))
 
-theorem not_isVariable_of_clean {v : Value} (h : v.hasMarker = false) : v.isVariable = false := by
-  cases v <;> simp_all [Value.hasMarker, Value.isVariable]
-
-theorem lit_sound (σ : String → Value) (env : Env) (v : Value) (h : v.hasMarker = false) :
-    Sound σ env (.lit v) (.ok (.lit v)) :=
-  Sound.ok_lit.mpr ⟨not_isVariable_of_clean h, Or.inl rfl⟩
+theorem lit_sound (γ : Value → Value) [Completion γ] (env : Env) (v : Value) : Sound γ env (.lit v) (.ok (.lit v)) :=
+  Sound.ok_lit.mpr (Or.inl rfl)
 
 /-! ### n-ary nodes: set and record literals, extension calls -/
 
@@ -1164,8 +1321,8 @@ theorem SoundL.weaken {env : Env} {e : Expr} {es : List Expr} {q : PR} (h : Soun
   | var s => trivial
   | ok x => exact h.elim
 
-theorem consR_sound {σ : String → Value} {env : Env} {e : Expr} {es : List Expr} {p : PR} {rest : LoopR}
-    (hs : Sound σ env e p) (hc : p.cleanLit = true) (hl : SoundL env es rest) :
+theorem consR_sound {γ : Value → Value} [Completion γ] {env : Env} {e : Expr} {es : List Expr} {p : PR} {rest : LoopR}
+    (hs : Sound γ env e p) (hc : p.cleanLit = true) (hl : SoundL env es rest) :
     SoundL env (e :: es) (consR e p rest) := by
   cases p with
   | err k => obtain ⟨k', hk⟩ := hs; exact ⟨e, by simp, k', hk⟩
@@ -1185,9 +1342,9 @@ theorem consR_sound {σ : String → Value} {env : Env} {e : Expr} {es : List Ex
       · exact hb.1
       · exact hl.2 hb.2 n hn
 
-theorem finishList_sound {σ : String → Value} {env envH : Env} {len : Nat} {node : List Expr → Expr} (N : Nary len node)
+theorem finishList_sound {γ : Value → Value} [Completion γ] {env envH : Env} {len : Nat} {node : List Expr → Expr} (N : Nary len node)
     {es : List Expr} (hlen : es.length = len) {loop : LoopR} (hl : SoundL env es loop) :
-    Sound σ env (node es) (finishList loop node (evalR · envH)) := by
+    Sound γ env (node es) (finishList loop node (evalR · envH)) := by
   cases loop with
   | fail q =>
     cases q with
@@ -1208,107 +1365,104 @@ theorem rebuildKVs_self : ∀ kes : List (String × Expr), rebuildKVs kes (kes.m
   | [] => rfl
   | (k, e) :: kes => by simp [rebuildKVs, rebuildKVs_self kes]
 
-/-! ## the main theorem: `partialE` is sound on `domE` -/
+/-! ## the main theorem: `partialE` is sound — for every expression -/
 
 /-- `env` is a completion of `envH` as far as expressions can tell: same store, and every request variable
     evaluates consistently with what `partial` computes for it -/
-structure CompletesVia (σ : String → Value) (envH env : Env) : Prop where
+structure CompletesVia (γ : Value → Value) (envH env : Env) : Prop where
   ent : envH.entities = env.entities
-  var : ∀ x, Sound σ env (.var x) (finishVal (.var x) (evalR (.var x) envH))
+  var : ∀ x, Sound γ env (.var x) (finishVal (.var x) (evalR (.var x) envH))
 
-theorem completesVia_complete (σ : String → Value) (envH : Env) : CompletesVia σ envH (completeEnv σ envH) :=
+theorem completesVia_complete (σ : String → Value) (envH : Env) :
+    CompletesVia (Value.substAll σ) envH (completeEnv σ envH) :=
   ⟨rfl, var_sound σ envH⟩
 
 theorem completesVia_ignore (σ : String → Value) (ι : Var → Value) (envH : Env) :
-    CompletesVia σ envH (completeEnvI σ ι envH) := by
+    CompletesVia (Value.substAll σ) envH (completeEnvI σ ι envH) := by
   refine ⟨rfl, ?_⟩
   intro x
   unfold finishVal evalR
   cases x <;> simp only [eval] <;> (split; · trivial) <;> (split; · trivial) <;>
     (rename_i hv hi
-     exact Sound.ok_lit.mpr ⟨by simpa using hv, Or.inr (by simp [eval, completeEnvI, hi])⟩)
+     exact Sound.ok_lit.mpr (Or.inr ⟨by simpa using hv, by simp [eval, completeEnvI, hi]⟩))
+
+def envPart (v : Var) (env : Env) : Value :=
+  match v with
+  | .principal => env.principal | .action => env.action | .resource => env.resource | .context => env.context
+
+/-- any environment whose request parts are the completed parts of `envH` (and whose store is the same) -/
+theorem completesVia_of_parts {γ : Value → Value} [Completion γ] {envH env : Env} (hent : envH.entities = env.entities)
+    (hparts : ∀ x, eval (.var x) env = .ok (γ (envPart x envH))) : CompletesVia γ envH env := by
+  refine ⟨hent, ?_⟩
+  intro x
+  have hx := hparts x
+  unfold finishVal evalR
+  cases x <;> simp only [eval, envPart] at hx ⊢ <;> (split; · trivial) <;> (split; · trivial) <;>
+    (rename_i hv _; exact Sound.ok_lit.mpr (Or.inr ⟨by simpa using hv, by simpa [eval] using hx⟩))
 
 mutual
-theorem partialE_sound {σ : String → Value} {envH env : Env} (C : CompletesVia σ envH env) :
-    ∀ e : Expr, domE envH e = true → Sound σ env e (partialE envH e)
-  | .lit v, h => by
-      simp only [domE, Bool.not_eq_true'] at h
-      simpa only [partialE] using lit_sound σ env v h
-  | .var x, _ => by
+theorem partialE_sound {γ : Value → Value} [Completion γ] {envH env : Env} (C : CompletesVia γ envH env) :
+    ∀ e : Expr, Sound γ env e (partialE envH e)
+  | .lit v => by
+      simpa only [partialE] using lit_sound γ env v
+  | .var x => by
       simpa only [partialE] using C.var x
-  | .unop op e, h => by
-      simp only [domE, Bool.and_eq_true] at h
+  | .unop op e => by
       simp only [partialE]
-      exact combine1_sound (un_unop op) C.ent (partialE_sound C e h.1) h.2
-  | .binop op l r, h => by
+      exact combine1_sound (un_unop op) C.ent (Sound.whole (partialE_sound C e)) (PR.whole_clean _)
+  | .binop op l r => by
       cases op
       case and =>
-        simp only [domE, Bool.and_eq_true] at h
         simp only [partialE]
-        exact andStep_sound C.ent (partialE_sound C l h.1.1) (partialE_sound C r h.1.2) h.2
+        exact andStep_sound C.ent (partialE_sound C l) (partialE_sound C r)
       case or =>
-        simp only [domE, Bool.and_eq_true] at h
         simp only [partialE]
-        exact orStep_sound C.ent (partialE_sound C l h.1.1) (partialE_sound C r h.1.2) h.2
+        exact orStep_sound C.ent (partialE_sound C l) (partialE_sound C r)
       all_goals
-        simp only [domE, Bool.and_eq_true] at h
         simp only [partialE]
         refine combine2_strict_sound _ ?_ ?_ C.ent
-          (partialE_sound C l h.1.1.1) h.1.2 (partialE_sound C r h.1.1.2) h.2 <;> decide
-  | .ite c t e, h => by
-      simp only [domE, Bool.and_eq_true] at h
+          (Sound.whole (partialE_sound C l)) (PR.whole_clean _) (Sound.whole (partialE_sound C r)) (PR.whole_clean _) <;> decide
+  | .ite c t e => by
       simp only [partialE]
-      exact iteStep_sound (partialE_sound C c h.1.1.1) (partialE_sound C t h.1.1.2)
-        (partialE_sound C e h.1.2) h.2
-  | .access e a, h => by
-      simp only [domE] at h
+      exact iteStep_sound (partialE_sound C c) (partialE_sound C t) (partialE_sound C e)
+  | .access e a => by
       simp only [partialE]
-      exact access_sound C.ent a (partialE_sound C e h)
-  | .has e a, h => by
-      simp only [domE] at h
+      exact access_sound C.ent a (partialE_sound C e)
+  | .has e a => by
       simp only [partialE]
-      exact has_sound C.ent a (partialE_sound C e h)
-  | .like e p, h => by
-      simp only [domE, Bool.and_eq_true] at h
+      exact has_sound C.ent a (partialE_sound C e)
+  | .like e p => by
       simp only [partialE]
-      exact combine1_sound (un_like p) C.ent (partialE_sound C e h.1) h.2
-  | .is e ty, h => by
-      simp only [domE, Bool.and_eq_true] at h
+      exact combine1_sound (un_like p) C.ent (Sound.whole (partialE_sound C e)) (PR.whole_clean _)
+  | .is e ty => by
       simp only [partialE]
-      exact combine1_sound (un_is ty) C.ent (partialE_sound C e h.1) h.2
-  | .isIn e ty r, h => by
-      simp only [domE, Bool.and_eq_true] at h
+      exact combine1_sound (un_is ty) C.ent (Sound.whole (partialE_sound C e)) (PR.whole_clean _)
+  | .isIn e ty r => by
       simp only [partialE]
-      exact isIn_sound ty C.ent (partialE_sound C e h.1.1.1.1) h.1.1.2 (partialE_sound C r h.1.1.1.2) h.1.2 h.2
-  | .set es, h => by
-      simp only [domE] at h
+      exact isInStep_sound ty C.ent (partialE_sound C e) (partialE_sound C r)
+  | .set es => by
       simp only [partialE]
-      exact finishList_sound (envH := envH) (nary_set es.length) rfl (partialList_sound C es h)
-  | .record kes, h => by
-      simp only [domE] at h
+      exact finishList_sound (envH := envH) (nary_set es.length) rfl (partialList_sound C es)
+  | .record kes => by
       simp only [partialE]
-      have := finishList_sound (σ := σ) (env := env) (envH := envH) (nary_record kes) (es := kes.map (·.2)) (by simp)
-        (partialKVs_sound C kes h)
+      have := finishList_sound (γ := γ) (env := env) (envH := envH) (nary_record kes) (es := kes.map (·.2)) (by simp)
+        (partialKVs_sound C kes)
       simpa only [rebuildKVs_self] using this
-  | .call fn args, h => by
-      simp only [domE] at h
+  | .call fn args => by
       simp only [partialE]
-      exact finishList_sound (envH := envH) (nary_call args.length fn) rfl (partialList_sound C args h)
-theorem partialList_sound {σ : String → Value} {envH env : Env} (C : CompletesVia σ envH env) :
-    ∀ es : List Expr, domList envH es = true → SoundL env es (partialList envH es)
-  | [], _ => by simp [partialList, SoundL, Pointwise.nil]
-  | e :: es, h => by
-      simp only [domList, Bool.and_eq_true] at h
+      exact finishList_sound (envH := envH) (nary_call args.length fn) rfl (partialList_sound C args)
+theorem partialList_sound {γ : Value → Value} [Completion γ] {envH env : Env} (C : CompletesVia γ envH env) :
+    ∀ es : List Expr, SoundL env es (partialList envH es)
+  | [] => by simp [partialList, SoundL, Pointwise.nil]
+  | e :: es => by
       simp only [partialList]
-      exact consR_sound (partialE_sound C e h.1.1) h.1.2 (partialList_sound C es h.2)
-theorem partialKVs_sound {σ : String → Value} {envH env : Env} (C : CompletesVia σ envH env) :
-    ∀ kes : List (String × Expr), domKVs envH kes = true →
-      SoundL env (kes.map (·.2)) (partialKVs envH kes)
-  | [], _ => by simp [partialKVs, SoundL, Pointwise.nil]
-  | (k, e) :: kes, h => by
-      simp only [domKVs, Bool.and_eq_true] at h
+      exact consR_sound (Sound.whole (partialE_sound C e)) (PR.whole_clean _) (partialList_sound C es)
+theorem partialKVs_sound {γ : Value → Value} [Completion γ] {envH env : Env} (C : CompletesVia γ envH env) :
+    ∀ kes : List (String × Expr), SoundL env (kes.map (·.2)) (partialKVs envH kes)
+  | [] => by simp [partialKVs, SoundL, Pointwise.nil]
+  | (k, e) :: kes => by
       simp only [partialKVs, List.map_cons]
-      exact consR_sound (partialE_sound C e h.1.1) h.1.2 (partialKVs_sound C kes h.2)
+      exact consR_sound (Sound.whole (partialE_sound C e)) (PR.whole_clean _) (partialKVs_sound C kes)
 end
 
 end CedarGo
